@@ -24,6 +24,7 @@ from __future__ import annotations
 
 import logging
 import os
+import sys
 from pathlib import PurePosixPath, PurePath
 
 from explorerscript.error import SsbCompilerError
@@ -44,6 +45,10 @@ from explorerscript.ssb_script.ssb_converting.ssb_compiler import SsbScriptSsbCo
 from explorerscript.util import open_utf8, f, _
 
 logger = logging.getLogger(__name__)
+
+# The compile handlers recurse once per nesting level, like the decompiler's graph passes (which set the same limit
+# when they are imported): what compiles must not depend on whether something was decompiled before.
+sys.setrecursionlimit(max(sys.getrecursionlimit(), 10000))
 
 
 class ExplorerScriptSsbCompiler:
@@ -119,6 +124,26 @@ class ExplorerScriptSsbCompiler:
         self.recursion_check = recursion_check
 
     def compile(
+        self, explorerscript_src: str, file_name: str, macros_only: bool = False, original_base_file: str | None = None
+    ) -> ExplorerScriptSsbCompiler:
+        """
+        After compiling, the components are present in this object's attributes.
+
+        file_name is the full path to the file that is being compiled.
+        original_base_file is the full path to the file that originally started an import chain. If not given, file_name
+        is used.
+        If macros_only is True, then an exception is raised, if the script files contains any routines.
+
+        :raises: ParseError: On parsing errors
+        :raises: SsbCompilerError: On logical compiling errors
+        :raises: ValueError: On misc. unexpected compilation errors
+        """
+        try:
+            return self._compile(explorerscript_src, file_name, macros_only, original_base_file)
+        except RecursionError as e:
+            raise SsbCompilerError(_("The script is nested too deeply.")) from e
+
+    def _compile(
         self, explorerscript_src: str, file_name: str, macros_only: bool = False, original_base_file: str | None = None
     ) -> ExplorerScriptSsbCompiler:
         """
